@@ -73,7 +73,12 @@ class Gen(object):
         if pb:
             return V.gen_fields_bad(self.st, names, pb, 4, exclude=("nid",) + tuple(exclude),
                                     kinds=self.cfg.get("bad_kinds"), vdepth=max(1, self.vdepth))
-        return V.gen_fields(self.st, names, 4, self.vdepth, exclude=("nid",) + tuple(exclude))
+        out = V.gen_fields(self.st, names, 4, self.vdepth, exclude=("nid",) + tuple(exclude))
+        if self.cfg.get("reserved_names") and names is V.FIELD_NAMES and self.st.choose(8, "reserved") == 7:
+            # a forwarded record that happens to carry one of eliot's own bookkeeping names
+            k = ["timestamp", "task_level", "task_uuid"][self.st.choose(3, "which-reserved")]
+            out[k] = ["2020-01-01T00:00:00", [9, 9], "someone-elses-uuid", 5][self.st.choose(4, "reserved-val")]
+        return out
 
     def value(self):
         pb = self.cfg.get("p_bad", 0)
@@ -104,7 +109,8 @@ class Gen(object):
             elif k == 1:
                 ops.append(self.act(depth, nopause))
             elif k == 2:
-                ops.append({"op": "tb", "nid": self.next_nid(), "cls": st.pick(self.exc)})
+                tb_classes = [c for c in self.exc if c != "CollideErr"]
+                ops.append({"op": "tb", "nid": self.next_nid(), "cls": st.pick(tb_classes)})
             elif k == 3:
                 ops.append({"op": "succ", "fields": self.fields(exclude=("result",))})
             elif k == 4:
@@ -136,7 +142,8 @@ class Gen(object):
             elif k == 10:
                 xs = self.cfg.get("extractable", ["ValueError"])
                 ops.append({"op": "xreg", "cls": xs[st.choose(len(xs), "xcls")],
-                            "mode": "raise" if st.choose(4, "xmode") == 3 else "fields"})
+                            "mode": "raise" if (st.choose(4, "xmode") == 3 and
+                                                not self.cfg.get("xreg_fields_only")) else "fields"})
         return ops
 
     def destop(self):
@@ -220,8 +227,12 @@ class Gen(object):
         op["catch"] = st.chance(self.p_catch, "catch")
         if st.choose(6, "refinish") == 5:
             op["fin"] = 1 + st.choose(2)
+        if self.cfg.get("mutate_exc") and st.choose(5, "mutate") == 4:
+            op["mutate_on_pass"] = True
         if style == "context" and self.cfg.get("finish_inside") and st.choose(4, "fin-inside") == 3:
             op["finish_inside"] = True
+        elif style == "context" and self.cfg.get("join_after_scope") and st.choose(3, "join-after") == 2:
+            op["join_after_scope"] = True
         return op
 
     def spawn(self, depth):
@@ -235,6 +246,9 @@ class Gen(object):
             # (what asyncio.to_thread / run_in_executor wrappers do)
             hows = self.cfg.get("preserve_how", ["thread", "inline", "copyctx"])
             op["how"] = hows[st.choose(len(hows), "preserve-how")]
+            if self.cfg.get("double_preserve") and op["how"] == "thread" and st.choose(4, "double") == 3:
+                op["double"] = True
+                op["bnid"] = self.next_nid()
         if kind == "remote":
             op["nid"] = self.next_nid()
             op["as_str"] = bool(st.choose(2, "as_str"))
@@ -264,8 +278,19 @@ def generate(st, cfg):
                        "start": {}, "catch": True, "body": g.body(3, False, in_action=True)}
                 kids.append({"op": "spawn", "kind": "task", "sid": g.sid,
                              "body": [own] if st.choose(4, "own-action") else g.body(2, False, in_action=True)})
+            pre = []
+            if cfg.get("orphans"):
+                # the parent creates actions that the sibling tasks enter (a dispatcher handing out job actions)
+                for kid in kids:
+                    if st.choose(2, "orphan"):
+                        onid = g.next_nid()
+                        pre.append({"op": "orphan_create", "nid": onid, "atype": "app:job"})
+                        target = kid["body"][0]["body"] if kid["body"] and kid["body"][0].get("atype") == "app:own" \
+                            else kid["body"]
+                        target.insert(st.choose(len(target) + 1, "orphan-at"),
+                                      {"op": "orphan_enter", "nid": onid, "body": g.body(3, False, in_action=True)})
             root = {"op": "act", "nid": g.next_nid(), "api": "with", "style": "with", "atype": "app:shared",
-                    "start": {}, "catch": True, "body": kids + g.body(1, False, in_action=True)}
+                    "start": {}, "catch": True, "body": pre + kids + g.body(1, False, in_action=True)}
             actors.append([root])
             continue
         ops = g.body(0)
